@@ -27,12 +27,12 @@ from zorg.storage.sql import _repo as rp
 from zorg.storage.sql import _zid_manager as zm
 
 hx.stub_loggers()
-hx.set(hd, "json", hx.JsonShim)
-hx.set(zm, "json", hx.JsonShim)
-hx.set(hd, "_hash_file", lambda p, chunk_size=8192: "H(" + p.read_text() + ")")
-hx.set(hd, "_check_for_modified_notes", lambda zdir, page, old: None)
-hx.set(hd, "tqdm", lambda it, **k: it)
-hx.set(c, "zprint", lambda *a, **k: None)
+hx.put(hd, "json", hx.JsonShim)
+hx.put(zm, "json", hx.JsonShim)
+hx.put(hd, "_hash_file", lambda p, chunk_size=8192: "H(" + p.read_text() + ")")
+hx.put(hd, "_check_for_modified_notes", lambda zdir, page, old: None)
+hx.put(hd, "tqdm", lambda it, **k: it)
+hx.put(c, "zprint", lambda *a, **k: None)
 hx.patch_clock(hd)
 KNOWN = set(x for x in os.environ.get("XH_KNOWN", "").split(",") if x)
 
@@ -66,7 +66,7 @@ def fake_walk(zdir, path, verbose=False):
     return page
 
 
-hx.set(hd, "walk_zorg_page", fake_walk)
+hx.put(hd, "walk_zorg_page", fake_walk)
 
 
 class RecRepo:
